@@ -404,6 +404,7 @@ def bounded(rep: Report, tier: str, seed: int) -> None:
         rep.evaluations += v
     rep.nontrivial_keys |= set(("n", i) for i in range(sum(v for k, v in counts.items() if k.split(":")[1] in ("ok", "fail"))))
     rep.violations.sort(key=lambda v: (len(v.replay["case"]["a"]) + len(v.replay["case"]["b"]), v.key, repr(v.replay["case"])))
+    O.cap_unclassified(rep)
     wrap.require_evaluated(rep, [CONTRACTS[b] for b in BACKENDS])
     rep.extra["status_counts"] = dict(sorted(counts.items()))
     rep.extra["table_pairs_per_combo"] = dict(per_combo)
